@@ -662,3 +662,13 @@ Section Allowed.
            (variants [] (tl (tokenise s)))
     ++ (if open_err_parse T s then [Err] else []).
 End Allowed.
+
+(* ---------------------------------------------------------------------------------------------
+   A history of create_transport calls in one process: the model has no state, the k-th outcome is
+   [create] of the k-th arguments (Proofs.history_independent).  The harness runs the implementation
+   along call sequences and thread interleavings and compares every outcome with the outcome of the
+   same call made alone in a fresh process.
+   ------------------------------------------------------------------------------------------- *)
+Definition run_history (py_int py_hex : str -> option Z) (py_float : str -> option N) (host_ok : str -> bool)
+           (localhost_ip : str) (E : list entry) (calls : list (dict * str)) : list (res transport) :=
+  map (fun c => create py_int py_hex py_float host_ok localhost_ip E (fst c) (snd c)) calls.
